@@ -425,6 +425,12 @@ func (q *Query) SMT(withModel bool) string {
 	if p.ufs["dec_be4"] {
 		out.WriteString("(assert (forall ((b Bytes)) (! (and (<= 0 (dec_be4 b)) (<= (dec_be4 b) 4294967295)) :pattern ((dec_be4 b)))))\n")
 	}
+	if p.ufs["key_lt"] {
+		// lexicographic byte order respects the first byte
+		out.WriteString("(assert (forall ((a Bytes) (b Bytes)) (! (=> (and (key_lt a b) (>= (blen a) 1) (>= (blen b) 1)) (<= (fam a) (fam b))) :pattern ((key_lt a b)))))\n")
+		// a key between p and h (p <= k < h) where h starts with p also starts with p
+		out.WriteString("(assert (forall ((p Bytes) (k Bytes) (h Bytes)) (! (=> (and (not (key_lt k p)) (key_lt k h) (bpre p h)) (bpre p k)) :pattern ((key_lt k p) (key_lt k h)))))\n")
+	}
 	out.WriteString("(assert (= (blen bnil) 0))\n")
 	out.WriteString("(assert (forall ((b Bytes)) (! (>= (blen b) 0) :pattern ((blen b)))))\n")
 	out.WriteString("(assert (forall ((p Bytes) (k Bytes)) (! (=> (and (bpre p k) (>= (blen p) 1)) (= (fam p) (fam k))) :pattern ((bpre p k)))))\n")
